@@ -411,6 +411,52 @@ theorem lines_joinWith (ls : List (List Char)) (hne : ls ≠ [])
   rw [splitOnChar_joinWith '\n' ls hne (fun l hl => (h l hl).1)]
   exact linesOf_id ls (fun l hl => (h l hl).2)
 
+/-- a well-formed line: no line break inside, not empty -/
+def LineOk (l : List Char) : Prop := '\n' ∉ l ∧ '\r' ∉ l ∧ l ≠ []
+
+theorem linesOf_snoc_nil (ls : List (List Char)) (h : ∀ l ∈ ls, '\r' ∉ l) : linesOf (ls ++ [[]]) = ls := by
+  induction ls with
+  | nil => rfl
+  | cons l r ih =>
+    have hr := ih (fun x hx => h x (by simp [hx]))
+    cases r with
+    | nil => simp [linesOf, stripCr_noCr l (h l (by simp))]
+    | cons m r' =>
+      simp only [List.cons_append, linesOf] at hr ⊢
+      rw [stripCr_noCr l (h l (by simp)), hr]
+
+theorem joinWith_snoc_nil (c : Char) (ls : List (List Char)) (hne : ls ≠ []) :
+    joinWith c (ls ++ [[]]) = joinWith c ls ++ [c] := by
+  induction ls with
+  | nil => exact absurd rfl hne
+  | cons l r ih =>
+    cases r with
+    | nil => simp [joinWith]
+    | cons m r' =>
+      have := ih (by simp)
+      simp only [List.cons_append, joinWith] at this ⊢
+      rw [this]; simp
+
+/-- how a row file may end: after the last row, or with one line feed after it -/
+def RowsEnd {α : Type} (rows : List α) (ending : List Char) : Prop :=
+  ending = [] ∨ (ending = ['\n'] ∧ rows ≠ [])
+
+/-- `lines()` of rows joined by `\n` returns the rows -/
+theorem lines_rows (rows : List (List Char)) (ending : List Char) (h : ∀ l ∈ rows, LineOk l)
+    (hend : RowsEnd rows ending) : lines (joinWith '\n' rows ++ ending) = rows := by
+  rcases hend with rfl | ⟨rfl, hne⟩
+  · cases rows with
+    | nil => rfl
+    | cons r rs => simpa using lines_joinWith (r :: rs) (by simp) h
+  · rw [← joinWith_snoc_nil '\n' rows hne]
+    unfold lines
+    rw [splitOnChar_joinWith '\n' (rows ++ [[]]) (by simp) (by
+      intro f hf
+      rcases List.mem_append.1 hf with hf | hf
+      · exact (h f hf).1
+      · simp at hf; subst hf; simp)]
+    exact linesOf_snoc_nil rows (fun l hl => (h l hl).2.1)
+
 /-! ### `[Term]` stanzas -/
 
 def kIsa : List Char := ['i', 's', '_', 'a']
@@ -544,9 +590,6 @@ theorem isaParents_isa (ps : List (Nat × List Char)) (h : ∀ p ∈ ps, p.1 < 4
     rw [ih (fun x hx => h x (by simp [hx]))]
     cases isaParents ls <;> rfl
 
-/-- a well-formed line: no line break inside, not empty -/
-def LineOk (l : List Char) : Prop := '\n' ∉ l ∧ '\r' ∉ l ∧ l ≠ []
-
 theorem LineOk_kv (k v : List Char) (hk : LineOk k) (hv : '\n' ∉ v ∧ '\r' ∉ v) : LineOk (kvLine k v) := by
   obtain ⟨h1, h2, h3⟩ := hk
   refine ⟨?_, ?_, ?_⟩
@@ -618,12 +661,16 @@ replacement) and the parent ids in line order -/
 theorem parseBlock_stanza (id : Nat) (name : List Char) (obs : Bool) (repl : Option Nat)
     (parents : List (Nat × List Char)) (extras1 extras2 : List (List Char × List Char))
     (hid : id < 4294967296) (hrepl : ∀ r, repl = some r → r < 4294967296)
-    (hpar : ∀ p ∈ parents, p.1 < 4294967296) (hok : StanzaOk name parents extras1 extras2) :
-    parseBlock (renderStanza id name obs repl parents extras1 extras2) =
+    (hpar : ∀ p ∈ parents, p.1 < 4294967296) (hok : StanzaOk name parents extras1 extras2)
+    (ending : List Char) (hend : ending = [] ∨ ending = ['\n']) :
+    parseBlock (renderStanza id name obs repl parents extras1 extras2 ++ ending) =
       .ok (.term { id := id, name := name, obsolete := obs, replacement := repl } (parents.map (·.1))) := by
-  have hlines : lines (joinWith '\n' (stanzaLines id name obs repl parents extras1 extras2)) =
+  have hlines : lines (joinWith '\n' (stanzaLines id name obs repl parents extras1 extras2) ++ ending) =
       stanzaLines id name obs repl parents extras1 extras2 :=
-    lines_joinWith _ (by simp [stanzaLines]) (stanzaLines_ok id name obs repl parents extras1 extras2 hok)
+    lines_rows _ ending (stanzaLines_ok id name obs repl parents extras1 extras2 hok) (by
+      rcases hend with h | h
+      · exact Or.inl h
+      · exact Or.inr ⟨h, by simp [stanzaLines]⟩)
   have hn1 : ∀ e ∈ extras1, Neutral e.1 := fun e he => (hok.extras e (by simp [he])).1
   have hn2 : ∀ e ∈ extras2, Neutral e.1 := fun e he => (hok.extras e (by simp [he])).1
   -- the four variables after the scan
@@ -669,7 +716,7 @@ theorem parseBlock_stanza (id : Nat) (name : List Char) (obs : Bool) (repl : Opt
       · exact neutral_isa _ (hn2 e he))]
     simp [Res.bind]
   unfold parseBlock renderStanza
-  rw [stripPrefix_append]
+  rw [List.append_assoc, stripPrefix_append]
   simp only [hlines, hterm, hisa, Res.bind]
 
 /-! ### other blocks, the header block -/
@@ -784,12 +831,18 @@ theorem joinWith_cons_stripPrefix_none (c : Char) (p f : List Char) (r : List (L
   | nil => simp [joinWith, stripPrefix, hxy]
   | cons g r' => rw [joinWith_cons_cons]; simp [stripPrefix, hxy]
 
+theorem joinWith_cons_exists (c : Char) (f : List Char) (r : List (List Char)) :
+    ∃ s, joinWith c (f :: r) = f ++ s := by
+  cases r with
+  | nil => exact ⟨[], by simp [joinWith]⟩
+  | cons g r' => exact ⟨_, joinWith_cons_cons c f g r'⟩
+
 theorem parseBlock_header (pre post : List (List Char)) (y1 y2 y3 y4 m1 m2 d1 d2 : Nat)
     (hy1 : y1 < 10) (hy2 : y2 < 10) (hy3 : y3 < 10) (hy4 : y4 < 10) (hm1 : m1 < 10) (hm2 : m2 < 10)
     (hd1 : d1 < 10) (hd2 : d2 < 10)
     (hpre : ∀ l ∈ pre, stripPrefix versionPrefix l = none)
-    (hok : ∀ l ∈ pre ++ post, LineOk l) :
-    parseBlock (joinWith '\n' (headerLines pre post y1 y2 y3 y4 m1 m2 d1 d2)) =
+    (hok : ∀ l ∈ pre ++ post, LineOk l) (ending : List Char) (hend : ending = [] ∨ ending = ['\n']) :
+    parseBlock (joinWith '\n' (headerLines pre post y1 y2 y3 y4 m1 m2 d1 d2) ++ ending) =
       .ok (.header (1000 * y1 + 100 * y2 + 10 * y3 + y4, 10 * m1 + m2, 10 * d1 + d2)) := by
   have hvl : LineOk (versionLine y1 y2 y3 y4 m1 m2 d1 d2) := by
     have hd : ∀ k, TermId.digitChar k ≠ '\n' ∧ TermId.digitChar k ≠ '\r' := fun k =>
@@ -797,9 +850,12 @@ theorem parseBlock_header (pre post : List (List Char)) (y1 y2 y3 y4 m1 m2 d1 d2
     refine ⟨?_, ?_, by simp [versionLine, versionPrefix]⟩
     · simp [versionLine, versionPrefix, dateText, fun k => ((hd k).1).symm]
     · simp [versionLine, versionPrefix, dateText, fun k => ((hd k).2).symm]
-  have hlines : lines (joinWith '\n' (headerLines pre post y1 y2 y3 y4 m1 m2 d1 d2)) =
+  have hlines : lines (joinWith '\n' (headerLines pre post y1 y2 y3 y4 m1 m2 d1 d2) ++ ending) =
       headerLines pre post y1 y2 y3 y4 m1 m2 d1 d2 := by
-    refine lines_joinWith _ (by simp [headerLines]) ?_
+    refine lines_rows _ ending ?_ (by
+      rcases hend with h | h
+      · exact Or.inl h
+      · exact Or.inr ⟨h, by simp [headerLines]⟩)
     intro l hl
     simp only [headerLines, List.cons_append, List.mem_cons, List.mem_append] at hl
     rcases hl with rfl | hl | rfl | hl
@@ -808,10 +864,15 @@ theorem parseBlock_header (pre post : List (List Char)) (y1 y2 y3 y4 m1 m2 d1 d2
     · exact hvl
     · exact hok l (by simp [hl])
   unfold parseBlock
-  have h1 : stripPrefix termPrefix (joinWith '\n' (headerLines pre post y1 y2 y3 y4 m1 m2 d1 d2)) = none :=
-    joinWith_cons_stripPrefix_none '\n' termPrefix formatPrefix _ '[' 'f' _ _ rfl rfl (by decide)
-  have h2 : startsWith formatPrefix (joinWith '\n' (headerLines pre post y1 y2 y3 y4 m1 m2 d1 d2)) = true :=
-    joinWith_cons_startsWith '\n' formatPrefix _
+  obtain ⟨t, ht⟩ := joinWith_cons_exists '\n' formatPrefix (pre ++ versionLine y1 y2 y3 y4 m1 m2 d1 d2 :: post)
+  have hform : joinWith '\n' (headerLines pre post y1 y2 y3 y4 m1 m2 d1 d2) ++ ending =
+      formatPrefix ++ (t ++ ending) := by
+    unfold headerLines
+    rw [List.cons_append, ht, List.append_assoc]
+  have h1 : stripPrefix termPrefix (joinWith '\n' (headerLines pre post y1 y2 y3 y4 m1 m2 d1 d2) ++ ending) = none := by
+    rw [hform]; simp [termPrefix, formatPrefix, stripPrefix]
+  have h2 : startsWith formatPrefix (joinWith '\n' (headerLines pre post y1 y2 y3 y4 m1 m2 d1 d2) ++ ending) = true := by
+    rw [hform]; exact startsWith_append _ _
   rw [h1]
   simp only [h2, if_true, hlines]
   have hv : versionFromLines (headerLines pre post y1 y2 y3 y4 m1 m2 d1 d2) =
@@ -873,6 +934,59 @@ theorem splitOnStrGo_last (b : List Char) (h : BlockOk b) : splitOnStrGo blankLi
           simp [blankLine, startsWith, hd]
         · simp [blankLine, startsWith, hc]
       rw [splitOnStrGo_cons_false _ _ _ hs, ih h2]; rfl
+
+theorem splitOnStrGo_last_nl (b : List Char) (h : BlockOk b) :
+    splitOnStrGo blankLine 0 (b ++ ['\n']) = [b ++ ['\n']] := by
+  induction b with
+  | nil => simp [splitOnStrGo, blankLine, startsWith, consHead]
+  | cons c r ih =>
+    cases r with
+    | nil =>
+      have hc : ¬ ('\n' = c) := fun e => h e.symm
+      have hs : startsWith blankLine (c :: ['\n']) = false := by simp [blankLine, startsWith, hc]
+      show splitOnStrGo blankLine 0 (c :: ['\n']) = _
+      rw [splitOnStrGo_cons_false _ _ _ hs]
+      simp [splitOnStrGo, blankLine, startsWith, consHead]
+    | cons d r' =>
+      obtain ⟨h1, h2⟩ := h
+      have hs : startsWith blankLine (c :: (d :: r' ++ ['\n'])) = false := by
+        by_cases hc : '\n' = c
+        · have hd : ¬ ('\n' = d) := fun e => h1 ⟨hc.symm, e.symm⟩
+          simp [blankLine, startsWith, hd]
+        · simp [blankLine, startsWith, hc]
+      show splitOnStrGo blankLine 0 (c :: (d :: r' ++ ['\n'])) = _
+      rw [splitOnStrGo_cons_false _ _ _ hs, ih h2]; rfl
+
+/-- the same with a last block that only has to come back as one piece (it may end in a line feed) -/
+theorem splitOnStr_joinStr_last (init : List (List Char)) (x : List Char)
+    (h : ∀ b ∈ init, BlockOk b) (hx : splitOnStrGo blankLine 0 x = [x]) :
+    splitOnStr blankLine (joinStr blankLine (init ++ [x])) = init ++ [x] := by
+  unfold splitOnStr
+  induction init with
+  | nil => simpa [joinStr] using hx
+  | cons b r ih =>
+    have hb := h b (by simp)
+    have hr := ih (fun y hy => h y (by simp [hy]))
+    have : ∃ g r', r ++ [x] = g :: r' := by cases r <;> simp
+    obtain ⟨g, r', e⟩ := this
+    rw [List.cons_append, e]
+    show splitOnStrGo blankLine 0 (b ++ blankLine ++ joinStr blankLine (g :: r')) = _
+    have e2 : b ++ blankLine ++ joinStr blankLine (g :: r') = b ++ '\n' :: '\n' :: joinStr blankLine (g :: r') := by
+      simp [blankLine]
+    rw [e2, splitOnStrGo_block b _ hb, ← e, hr]
+
+theorem joinStr_last_append (sep : List Char) (init : List (List Char)) (x e : List Char) :
+    joinStr sep (init ++ [x ++ e]) = joinStr sep (init ++ [x]) ++ e := by
+  induction init with
+  | nil => simp [joinStr]
+  | cons b r ih =>
+    have h1 : ∃ g r', r ++ [x ++ e] = g :: r' := by cases r <;> simp
+    have h2 : ∃ g r', r ++ [x] = g :: r' := by cases r <;> simp
+    obtain ⟨g1, r1, e1⟩ := h1
+    obtain ⟨g2, r2, e2⟩ := h2
+    rw [List.cons_append, List.cons_append, e1, e2]
+    show b ++ sep ++ joinStr sep (g1 :: r1) = b ++ sep ++ joinStr sep (g2 :: r2) ++ e
+    rw [← e1, ← e2, ih]; simp
 
 /-- `split("\n\n")` returns exactly the blocks that were joined with a blank line -/
 theorem splitOnStr_joinStr (blocks : List (List Char)) (hne : blocks ≠ [])
@@ -956,6 +1070,28 @@ theorem readObo_pairs (pairs : List (List Char × Block)) (hne : pairs ≠ [])
     exact (h p hp).1)]
   exact readBlocks_results pairs (fun p hp => (h p hp).2) {}
 
+theorem readObo_pairs_last (init : List (List Char × Block)) (last : List Char × Block) (e : List Char)
+    (he : e = [] ∨ e = ['\n'])
+    (h : ∀ p ∈ init, BlockOk p.1 ∧ parseBlock p.1 = .ok p.2)
+    (hl : BlockOk last.1 ∧ parseBlock (last.1 ++ e) = .ok last.2) :
+    readObo (joinStr blankLine (init.map (·.1) ++ [last.1]) ++ e) =
+      .ok (((init ++ [last]).map (·.2)).foldl Obo.push {}) := by
+  unfold readObo
+  have hx : splitOnStrGo blankLine 0 (last.1 ++ e) = [last.1 ++ e] := by
+    rcases he with rfl | rfl
+    · simpa using splitOnStrGo_last last.1 hl.1
+    · exact splitOnStrGo_last_nl last.1 hl.1
+  rw [← joinStr_last_append, splitOnStr_joinStr_last _ _ (by
+    intro b hb
+    obtain ⟨p, hp, rfl⟩ := List.mem_map.1 hb
+    exact (h p hp).1) hx]
+  have := readBlocks_results (init ++ [(last.1 ++ e, last.2)]) (by
+    intro p hp
+    rcases List.mem_append.1 hp with hp | hp
+    · exact (h p hp).2
+    · simp at hp; subst hp; exact hl.2) {}
+  simpa using this
+
 theorem joinStr_snoc_nil (sep : List Char) (bs : List (List Char)) (hne : bs ≠ []) :
     joinStr sep (bs ++ [[]]) = joinStr sep bs ++ sep := by
   induction bs with
@@ -1017,17 +1153,12 @@ theorem renderStanza_eq (id : Nat) (name : List Char) (obs : Bool) (repl : Optio
       joinWith '\n' (tagTerm :: stanzaLines id name obs repl parents e1 e2) := by
   simp [renderStanza, stanzaLines, joinWith_cons_cons, tagTerm, termPrefix]
 
-theorem joinWith_cons_exists (c : Char) (f : List Char) (r : List (List Char)) :
-    ∃ s, joinWith c (f :: r) = f ++ s := by
-  cases r with
-  | nil => exact ⟨[], by simp [joinWith]⟩
-  | cons g r' => exact ⟨_, joinWith_cons_cons c f g r'⟩
-
-theorem Item.block_ok (i : Item) (h : i.Ok) : BlockOk i.render ∧ parseBlock i.render = .ok i.result := by
+theorem Item.block_ok (i : Item) (h : i.Ok) :
+    BlockOk i.render ∧ ∀ e, e = [] ∨ e = ['\n'] → parseBlock (i.render ++ e) = .ok i.result := by
   cases i with
   | stanza id name obs repl parents e1 e2 =>
     obtain ⟨h1, h2, h3, h4⟩ := h
-    refine ⟨?_, parseBlock_stanza id name obs repl parents e1 e2 h1 h2 h3 h4⟩
+    refine ⟨?_, fun e he => parseBlock_stanza id name obs repl parents e1 e2 h1 h2 h3 h4 e he⟩
     simp only [Item.render]
     rw [renderStanza_eq]
     refine (BlockOk_joinWith _ (by simp) ?_).1
@@ -1039,19 +1170,20 @@ theorem Item.block_ok (i : Item) (h : i.Ok) : BlockOk i.render ∧ parseBlock i.
   | other tag ls =>
     obtain ⟨h1, h2, h3⟩ := h
     refine ⟨(BlockOk_joinWith _ (by simp) (fun l hl => ⟨(h1 l hl).1, (h1 l hl).2.2⟩)).1, ?_⟩
+    intro e _
     obtain ⟨s, hs⟩ := joinWith_cons_exists '\n' tag ls
-    simp only [Item.render, Item.result, hs]
-    exact parseBlock_other _ (h2 s) (h3 s)
+    simp only [Item.render, Item.result, hs, List.append_assoc]
+    exact parseBlock_other _ (h2 _) (h3 _)
 
 /-- A whole rendered `hp.obo`: header block, then `[Term]` stanzas and other stanzas in any order,
-separated by blank lines, ending right after the last block or with one more blank line. The
-loader sees exactly the term stanzas (in file order) and the release version. -/
+separated by blank lines, ending right after the last block, with a line feed, or with a line feed
+and a blank line. The loader sees exactly the term stanzas (in file order) and the release version. -/
 theorem readObo_file (pre post : List (List Char)) (y1 y2 y3 y4 m1 m2 d1 d2 : Nat)
     (hy1 : y1 < 10) (hy2 : y2 < 10) (hy3 : y3 < 10) (hy4 : y4 < 10) (hm1 : m1 < 10) (hm2 : m2 < 10)
     (hd1 : d1 < 10) (hd2 : d2 < 10)
     (hpre : ∀ l ∈ pre, stripPrefix versionPrefix l = none) (hok : ∀ l ∈ pre ++ post, LineOk l)
     (items : List Item) (hitems : ∀ i ∈ items, i.Ok) (ending : List Char)
-    (hend : ending = [] ∨ ending = blankLine) :
+    (hend : ending = [] ∨ ending = ['\n'] ∨ ending = blankLine) :
     readObo (joinStr blankLine
         (joinWith '\n' (headerLines pre post y1 y2 y3 y4 m1 m2 d1 d2) :: items.map Item.render) ++ ending) =
       .ok { terms := itemsTerms items,
@@ -1069,26 +1201,52 @@ theorem readObo_file (pre post : List (List Char)) (y1 y2 y3 y4 m1 m2 d1 d2 : Na
       simp [versionLine, versionPrefix, dateText, hd]
     · have := hok l (by simp [hl]); exact ⟨this.1, this.2.2⟩
   let v : Nat × Nat × Nat := (1000 * y1 + 100 * y2 + 10 * y3 + y4, 10 * m1 + m2, 10 * d1 + d2)
-  let base : List (List Char × Block) :=
-    (joinWith '\n' (headerLines pre post y1 y2 y3 y4 m1 m2 d1 d2), Block.header v) ::
-      items.map (fun i => (i.render, i.result))
+  let hp : List Char × Block := (joinWith '\n' (headerLines pre post y1 y2 y3 y4 m1 m2 d1 d2), Block.header v)
+  let base : List (List Char × Block) := hp :: items.map (fun i => (i.render, i.result))
   have hbase : ∀ p ∈ base, BlockOk p.1 ∧ parseBlock p.1 = .ok p.2 := by
     intro p hp
     rcases List.mem_cons.1 hp with rfl | hp
-    · exact ⟨hhok, hhdr⟩
+    · exact ⟨hhok, by simpa using hhdr [] (Or.inl rfl)⟩
     · obtain ⟨i, hi, rfl⟩ := List.mem_map.1 hp
-      exact i.block_ok (hitems i hi)
+      exact ⟨(i.block_ok (hitems i hi)).1, by simpa using (i.block_ok (hitems i hi)).2 [] (Or.inl rfl)⟩
   have hfst : base.map (·.1) =
       joinWith '\n' (headerLines pre post y1 y2 y3 y4 m1 m2 d1 d2) :: items.map Item.render := by
-    simp [base, List.map_map, Function.comp_def]
+    simp [base, hp, List.map_map, Function.comp_def]
   have hsnd : base.map (·.2) = Block.header v :: items.map Item.result := by
-    simp [base, List.map_map, Function.comp_def]
-  rcases hend with rfl | rfl
+    simp [base, hp, List.map_map, Function.comp_def]
+  rcases hend with rfl | rfl | rfl
   · have := readObo_pairs base (by simp [base]) hbase
     rw [hfst, hsnd] at this
     simp only [List.append_nil]
     rw [this, List.foldl_cons, foldl_push_items]
     simp [Obo.push, v]
+  · -- single line feed after the last block
+    rcases List.eq_nil_or_concat items with h0 | ⟨its, it, h0⟩
+    · subst h0
+      have := readObo_pairs_last [] hp ['\n'] (Or.inr rfl) (by simp)
+        ⟨hhok, hhdr ['\n'] (Or.inr rfl)⟩
+      simpa [hp, Obo.push, itemsTerms, v] using this
+    · rw [List.concat_eq_append] at h0
+      subst h0
+      have hit := hitems it (by simp)
+      have := readObo_pairs_last (hp :: its.map (fun i => (i.render, i.result))) (it.render, it.result) ['\n']
+        (Or.inr rfl) (by
+          intro p hp'
+          exact hbase p (by
+            rcases List.mem_cons.1 hp' with rfl | hp'
+            · simp [base]
+            · simp only [base, List.map_append, List.mem_cons, List.mem_append]
+              exact Or.inr (Or.inl hp')))
+        ⟨(it.block_ok hit).1, (it.block_ok hit).2 ['\n'] (Or.inr rfl)⟩
+      have e1 : (hp :: its.map (fun i => (i.render, i.result))).map (·.1) ++ [it.render] =
+          joinWith '\n' (headerLines pre post y1 y2 y3 y4 m1 m2 d1 d2) :: (its ++ [it]).map Item.render := by
+        simp [hp, List.map_map, Function.comp_def]
+      have e2 : ((hp :: its.map (fun i => (i.render, i.result))) ++ [(it.render, it.result)]).map (·.2) =
+          Block.header v :: (its ++ [it]).map Item.result := by
+        simp [hp, List.map_map, Function.comp_def]
+      rw [e1, e2] at this
+      rw [this, List.foldl_cons, foldl_push_items]
+      simp [Obo.push, v]
   · have := readObo_pairs (base ++ [([], Block.other)]) (by simp) (by
       intro p hp
       rcases List.mem_append.1 hp with hp | hp
@@ -1102,49 +1260,6 @@ theorem readObo_file (pre post : List (List Char)) (y1 y2 y3 y4 m1 m2 d1 d2 : Na
     simp [Obo.push, v]
 
 /-! ### whole row files -/
-
-theorem linesOf_snoc_nil (ls : List (List Char)) (h : ∀ l ∈ ls, '\r' ∉ l) : linesOf (ls ++ [[]]) = ls := by
-  induction ls with
-  | nil => rfl
-  | cons l r ih =>
-    have hr := ih (fun x hx => h x (by simp [hx]))
-    cases r with
-    | nil => simp [linesOf, stripCr_noCr l (h l (by simp))]
-    | cons m r' =>
-      simp only [List.cons_append, linesOf] at hr ⊢
-      rw [stripCr_noCr l (h l (by simp)), hr]
-
-theorem joinWith_snoc_nil (c : Char) (ls : List (List Char)) (hne : ls ≠ []) :
-    joinWith c (ls ++ [[]]) = joinWith c ls ++ [c] := by
-  induction ls with
-  | nil => exact absurd rfl hne
-  | cons l r ih =>
-    cases r with
-    | nil => simp [joinWith]
-    | cons m r' =>
-      have := ih (by simp)
-      simp only [List.cons_append, joinWith] at this ⊢
-      rw [this]; simp
-
-/-- how a row file may end: after the last row, or with one line feed after it -/
-def RowsEnd {α : Type} (rows : List α) (ending : List Char) : Prop :=
-  ending = [] ∨ (ending = ['\n'] ∧ rows ≠ [])
-
-/-- `lines()` of rows joined by `\n` returns the rows -/
-theorem lines_rows (rows : List (List Char)) (ending : List Char) (h : ∀ l ∈ rows, LineOk l)
-    (hend : RowsEnd rows ending) : lines (joinWith '\n' rows ++ ending) = rows := by
-  rcases hend with rfl | ⟨rfl, hne⟩
-  · cases rows with
-    | nil => rfl
-    | cons r rs => simpa using lines_joinWith (r :: rs) (by simp) h
-  · rw [← joinWith_snoc_nil '\n' rows hne]
-    unfold lines
-    rw [splitOnChar_joinWith '\n' (rows ++ [[]]) (by simp) (by
-      intro f hf
-      rcases List.mem_append.1 hf with hf | hf
-      · exact (h f hf).1
-      · simp at hf; subst hf; simp)]
-    exact linesOf_snoc_nil rows (fun l hl => (h l hl).2.1)
 
 /-- free text of a row: no column separator, no line break -/
 def NoSep (s : List Char) : Prop := '\t' ∉ s ∧ '\n' ∉ s ∧ '\r' ∉ s
@@ -1378,7 +1493,7 @@ theorem loadJax_render (tr : Bool)
     (hd1 : d1 < 10) (hd2 : d2 < 10)
     (hpre : ∀ l ∈ pre, stripPrefix versionPrefix l = none) (hok : ∀ l ∈ pre ++ post, LineOk l)
     (items : List Item) (hitems : ∀ i ∈ items, i.Ok) (oboEnd : List Char)
-    (hoboEnd : oboEnd = [] ∨ oboEnd = blankLine)
+    (hoboEnd : oboEnd = [] ∨ oboEnd = ['\n'] ∨ oboEnd = blankLine)
     (hdr : List Char) (grows : List GRow) (geneEnd : List Char) (hnl : '\n' ∉ hdr)
     (hh : startsWith ['#'] hdr = true ∨ startsWith hdrNcbi hdr = true ∨ startsWith hdrHpo hdr = true)
     (hg : ∀ r ∈ grows, r.Ok) (hgeneEnd : RowsEnd grows geneEnd)
